@@ -12,12 +12,26 @@ import traceback
 from typing import Any
 from typing import Tuple
 
+from pastel import Pastel
+
 from clikit.api.io import IO
 from clikit.formatter.plain_formatter import PlainFormatter
 from clikit.utils._compat import PY2
 from clikit.utils._compat import PY36
 from clikit.utils._compat import decode
 from clikit.utils._compat import encode
+
+
+def _strip_tags(text):  # type: (str) -> str
+    """
+    Removes everything that looks like a style tag, valid or not.
+    """
+    while True:
+        stripped = Pastel.FULL_TAG_REGEX.sub("", text)
+        if stripped == text:
+            return text
+
+        text = stripped
 
 
 class Highlighter(object):
@@ -72,7 +86,15 @@ class Highlighter(object):
     def highlighted_lines(self, source):
         source = source.replace("\r\n", "\n").replace("\r", "\n")
 
-        return self.split_to_lines(source)
+        try:
+            return self.split_to_lines(source)
+        except (tokenize.TokenError, SyntaxError):
+            # The source cannot be tokenized (it changed since it was executed,
+            # or it is not Python at all): show it without highlighting
+            return [
+                "<{}>{}</>".format(self._theme[self.TOKEN_DEFAULT], _strip_tags(line))
+                for line in source.split("\n")
+            ]
 
     def split_to_lines(self, source):
         lines = []
